@@ -160,12 +160,16 @@ OverrideRun ==
     /\ UNCHANGED <<prog, pv, ep, doc, dec, origin>>
 
 (* ---- dispatch: the match arm generated from the owning method ---------- *)
+NoPart == [id |-> "?", methods |-> <<>>]
+NoMethod == [name |-> "?", kind |-> "?", outcome |-> "err", args |-> <<>>, wire |-> "?", aliases |-> <<>>, code |-> 0]
 Dispatch ==
     /\ stage = "decoded" /\ dec.verdict = "ok" /\ dec.why # "override"
-    /\ LET part == P.parts[dec.part]
+    /\ LET part == IF dec.part \in 1..Len(P.parts) THEN P.parts[dec.part] ELSE NoPart
+           \* (in the machine a decoded message always has an owner; a trace may show a handler running for a document no
+           \*  message answers to -- the stand-in keeps the step defined so that the clauses can say what is wrong with it)
            m == IF ep \in EnumKinds
-                THEN CHOOSE x \in EOwnersIn(part, ep, doc.key) : TRUE
-                ELSE EMethodsOf(part, ep)[1]
+                THEN IF EOwnersIn(part, ep, doc.key) # {} THEN CHOOSE x \in EOwnersIn(part, ep, doc.key) : TRUE ELSE NoMethod
+                ELSE IF Len(EMethodsOf(part, ep)) > 0 THEN EMethodsOf(part, ep)[1] ELSE NoMethod
        IN /\ ran' = Append(ran, [part |-> part.id, name |-> m.name, kind |-> m.kind])
           /\ res' = m.outcome
     /\ stage' = "ran"
